@@ -40,7 +40,10 @@ def corrupt(rng, rows, kind, trained=True):
     elif how == "cc":
         bad[i][j] = bad[i][j] + Fraction(1, 4) if bad[i][j] <= Fraction(3, 4) else bad[i][j] - Fraction(1, 4)
     elif how == "nonbinary":
-        bad[i][j] = Fraction(1, 2)
+        # 1/2, or an integer other than 0/1 (the batch is then handed over as an integer array)
+        bad[i][j] = rng.choice([Fraction(1, 2), Fraction(-1), Fraction(2), Fraction(-3), Fraction(1, 2)])
+        if bad[i][j].denominator == 1:
+            how = "nonbinary-int"
     return bad, how
 
 
@@ -75,6 +78,8 @@ def run_ops_continue(k, ops):
     obs, fails = [], []
     for i, o in enumerate(ops):
         X = np.array(o["X"], dtype=float)
+        if o.get("invalid") == "nonbinary-int" or (k["kind"] == "ART1" and not o.get("invalid") and i % 3 == 1):
+            X = X.astype(np.int64 if i % 2 else np.int8)          # binary data often arrives as integers
         rec = {"ok": True, "logs": [], "ret": []}
         before = zoo.canon(est)
         try:
